@@ -1,6 +1,6 @@
 SPECIFICATION Spec
 CONSTANT Off = {}
 CONSTANT Family = "loop3"
-INVARIANTS Safe TypeOk OptionsOk Normalises SuffixIndependent Export
-PROPERTIES LoopProgress Monotone Terminates
+INVARIANTS Safe TypeOk AbsInv OptionsOk Normalises SuffixIndependent Export
+PROPERTIES LoopProgress Monotone Terminates RefinesLen
 CHECK_DEADLOCK FALSE
